@@ -58,4 +58,6 @@ def run(ctx):
     nb += ebin.check_var_codes(ctx, F)
     ctx.floor("E-DDDMP.bincodes", "writer/reader agreement cases", nb, 60)
     ebin.check_ascii_writer(ctx, F)
+    ctx.explain("E-DDDMP.reader: header length validations use `!=` (equal lengths pass), roots are complemented exactly for negative ids, the missing-`.end` error sits on the `!reads_expected` edge.")
+    ebin.check_reader_structure(ctx, F)
     ctx.not_decided = "round-trip equality of diagrams, totality on malformed input (value reasoning about indices and counts)"
